@@ -369,7 +369,13 @@ impl Tokenizer<'_> {
 
             State::Pound(start) => Err(KikiErr::Lex(start, Some('#'))),
 
-            State::OuterAttribute(start, _, end) => self.finish_outer_attribute(start, end),
+            // We only get here at the end of the input
+            // (a closing bracket finishes the attribute directly),
+            // so the attribute is unterminated.
+            State::OuterAttribute(start, _, end) => {
+                self.assert_outer_attribute_brackets_match(start, end)?;
+                Err(KikiErr::Lex(current_index, current))
+            }
         }?;
 
         self.state = State::Main;
